@@ -67,6 +67,10 @@ macro_rules! value {
 //         .collect()
 // }
 
+fn number_into_u64(value: i128, target: &str) -> Result<u64, Error> {
+    u64::try_from(value).map_err(|_| Error::CoerceError(format!("{value}"), target.to_string()))
+}
+
 fn compile_struct(ir: &tir::StructExpr) -> Result<primitives::PlutusData, Error> {
     let fields = ir
         .fields
@@ -396,7 +400,7 @@ pub fn compile_withdrawal_directive(
         .get("amount")
         .ok_or(Error::MissingExpression("withdrawal amount".to_string()))?;
     let amount = coercion::expr_into_number(amount)?;
-    let amount = primitives::Coin::try_from(amount as u64).unwrap();
+    let amount = number_into_u64(amount, "withdrawal amount")?;
 
     Ok((credential, amount))
 }
@@ -491,13 +495,15 @@ fn compile_validity(validity: Option<&tir::Validity>) -> Result<(Option<u64>, Op
         .and_then(|v| v.since.as_option())
         .map(coercion::expr_into_number)
         .transpose()?
-        .map(|n| n as u64);
+        .map(|n| number_into_u64(n, "slot"))
+        .transpose()?;
 
     let until = validity
         .and_then(|v| v.until.as_option())
         .map(coercion::expr_into_number)
         .transpose()?
-        .map(|n| n as u64);
+        .map(|n| number_into_u64(n, "slot"))
+        .transpose()?;
 
     Ok((since, until))
 }
@@ -510,7 +516,9 @@ fn compile_donation(tx: &tir::Tx) -> Result<Option<pallas::codec::utils::Positiv
         .map(coercion::expr_into_number)
         .transpose()?
         .map(|amount| {
-            pallas::codec::utils::PositiveCoin::try_from(amount as u64).map_err(|_| {
+            let coin = number_into_u64(amount, "PositiveCoin")?;
+
+            pallas::codec::utils::PositiveCoin::try_from(coin).map_err(|_| {
                 Error::CoerceError(
                     format!("Invalid donation amount: {}", amount),
                     "PositiveCoin".to_string(),
@@ -529,7 +537,7 @@ fn compile_tx_body(
     let out = primitives::TransactionBody {
         inputs: compile_inputs(tx)?.into(),
         outputs: compile_outputs(tx, network)?,
-        fee: coercion::expr_into_number(&tx.fees)? as u64,
+        fee: number_into_u64(coercion::expr_into_number(&tx.fees)?, "fee")?,
         certificates: primitives::NonEmptySet::from_vec(compile_certs(tx, network)?),
         mint: compile_mint_block(tx)?,
         reference_inputs: primitives::NonEmptySet::from_vec(compile_reference_inputs(tx)?),
@@ -558,7 +566,7 @@ fn compile_auxiliary_data(tx: &tir::Tx) -> Result<Option<primitives::AuxiliaryDa
         .metadata
         .into_iter()
         .map(|x| {
-            let key = expr_into_number(&x.key)? as u64;
+            let key = number_into_u64(expr_into_number(&x.key)?, "metadata label")?;
             let value = expr_into_metadatum(&x.value)?;
             Ok((key, value))
         })
